@@ -13,7 +13,19 @@ Oracles (all against ref.expr derivatives, self-checked against Richardson diffe
      flat and non-flat, at points with non-zero changes;
  (c) the stacked-time evaluator built by simulate(method="stacked_time") (captured by replacing
      neqs.damped_newton): eval_func against the reference residuals, eval_jacob analytically with
-     terminal="data", and against a Richardson difference of eval_func with terminal="first_order".
+     terminal="data", and against a Richardson difference of eval_func with terminal="first_order";
+ (d) the same stacked-time evaluator over 3 periods with non-zero anticipated shocks
+     - asked for its Jacobian more than once: one evaluator (terminal="first_order") is evaluated at a sequence of
+       points - Z (every unknown of a non-log variable among x, y, z, w exactly 0.0, so that many derivatives,
+       also in the terminal-condition columns, are exactly zero), G (the data), F (3 x G: other branches of
+       maximum, also in the terminal values) - in the orders Z,G,F and G,Z,F, a fresh evaluator per order, and
+       EVERY evaluation is compared with the reference at that point;
+     - under a SimulationPlan: every plan of the complete space {x, y, z, w} x {every date of the frame} that
+       exogenizes the variable (anticipated; unanticipated in the first period) and endogenizes the shock of its
+       closing equation, with terminal "data" and "first_order"; the unknowns are identified by behaviour (which
+       data entry each element of the solver's vector is written to) and must be exactly: all variable points
+       minus the exogenized one plus the shock; the Jacobian w.r.t. these unknowns (the same variable at later
+       dates, the terminal condition, the shock) is compared with the reference.
 A tree whose model raises at build or evaluation is *rejected* (allowed by the property) and counted per operator.
 """
 import contextlib
@@ -40,11 +52,16 @@ RULE = ("every tree of the stated families over leaves {x, y[-1], z[+1], w[-2], 
         "reference finds admissible (inside the domain, >= 0.1 from kinks, positive for log-variables); trees are packed 24 "
         "(D3V: 48) per generated model, a model that raises is bisected down to single trees (a single tree that raises is "
         "'rejected'); distinct non-trivial case = (family, tree index, log assignment) of a tree that contains a variable and "
-        "was accepted by systemize(), i.e. had its Jacobian rows compared")
+        "was accepted by systemize(), i.e. had its Jacobian rows compared; oracle (d) on the D12 packs (quick: 8 log assignments "
+        "revisited, 2 under plans; thorough: all 16) and the D3U packs (quick: revisited under the all-non-log assignment; thorough: 4 "
+        "assignments, both; D3L/D3R revisited under the all-non-log assignment): evaluation sequences Z,G,F and G,Z,F on one "
+        "evaluator each, and all 16 plans (4 exogenized variables x 3 dates anticipated + 4 x first date unanticipated) x 2 terminals")
 MANIFEST_ENTRY = dict(level="exploration", design="DESIGN.md section 4 / C02",
     technique="exhaustive enumeration of expression trees x log-status assignments x reference-chosen evaluation points; "
               "systemize / steady-evaluator / stacked-time Jacobians compared entry by entry with textbook forward-mode "
-              "derivatives that are self-checked against Richardson differences on every row",
+              "derivatives that are self-checked against Richardson differences on every row; the stacked-time evaluator is also "
+              "re-evaluated at sequences of points (exact zeros first / in the middle) and under every single-point "
+              "exogenize/endogenize plan of a 3-period frame",
     text="For every tree of depth <= 2 and every unary(depth-2) tree (quick), plus every binary(depth-2, leaf), "
          "binary(leaf, depth-2) tree and every binary(t1, t2) of depth-2 trees over variable leaves (thorough), over leaves "
          "{x, y[-1], z[+1], w[-2], p, 2, 0.5} and operators {+ - * / ^ unary-, log exp sqrt logistic abs normal_cdf normal_pdf "
@@ -55,16 +72,27 @@ MANIFEST_ENTRY = dict(level="exploration", design="DESIGN.md section 4 / C02",
          "evaluators (eval_func = reference residuals at t and t+1, eval_jacob = reference derivatives w.r.t. (log-)levels "
          "and changes) and the stacked-time evaluator over 3 periods with time-varying data (analytic Jacobian with "
          "terminal='data'; Richardson difference of eval_func for the rows that read the first-order terminal value): all "
-         "16 assignments for D12 (quick) and D12/D3U/D3L/D3R (thorough), 4 assignments for D3U in quick, systemize only for D3V.",
+         "16 assignments for D12 (quick) and D12/D3U/D3L/D3R (thorough), 4 assignments for D3U in quick, systemize only for D3V. "
+         "Stacked-time evaluator asked repeatedly (terminal='first_order', 3 periods, non-zero anticipated shocks): the points Z (all "
+         "unknowns of non-log x, y, z, w exactly 0), G (data), F (3 x data) in the orders Z,G,F and G,Z,F on one evaluator each, every "
+         "evaluation compared (rows that read terminal values against a Richardson difference of eval_func, the others analytically): "
+         "D12 under 8 (quick) / 16 (thorough) log assignments, D3U under 1 / 4, D3L and D3R under 1 (thorough). Stacked-time evaluator "
+         "under a plan: for D12 under 2 (quick) / 16 (thorough) log assignments and D3U under 4 (thorough), each of the 16 plans "
+         "{x, y, z, w} x {date 1, 2, 3} exogenized anticipated (+ date 1 unanticipated) with the shock of the variable's closing "
+         "equation endogenized at the same date, terminal 'data' and 'first_order': the unknowns are exactly the variable points "
+         "minus the exogenized one plus the shock, and every Jacobian row equals the reference derivative w.r.t. those unknowns.",
     note="Trusted: ref/expr.py + ref/c02space.py (plain math; two independent rule sets and a Richardson difference must "
          "agree on every row before it is used). The two defects this check exposed (non-flat steady Jacobian rows for t+k taken at t; "
          "maximum dropping the derivative of a non-constant second argument) were repaired in /repo; their violation "
          "classes keep a narrow signature. The closing equations give every model lags of 2 and leads of 2 on several "
          "variables, so the first-order terminal correction spans two terminal columns. Not covered: depth-3 trees with a "
          "composite argument that contains p or a number on both sides, points off the 8-point table, more than one "
-         "shift per variable inside a tree, the C/H vectors and the dynamic-identity rows (not in the statement).")
+         "shift per variable inside a tree, the C/H vectors and the dynamic-identity rows (not in the statement); plans with "
+         "several exogenized points, a shock endogenized at another date than the exogenized point, unanticipated points after "
+         "the first period (they start a new frame), frames longer than 3 periods.")
 ASSUMPTIONS = [
-    "evaluation points come from a fixed table of 8 candidates (rotated by the seed); derivatives at other points are not examined",
+    "evaluation points come from a fixed table of 8 candidates (rotated by the seed), plus, in oracle (d), the two points derived "
+    "from them (Z: unknowns of non-log variables exactly 0; F: 3 x the data); derivatives at other points are not examined",
     "an occurrence that is both an element of x(t) and of x(t-1) (e.g. w[-1]) may be reported in A or in B, not in both",
     "user context functions are differentiated by finite differences in irispie: compared at relative 1e-6 instead of 1e-9",
     "the rows of dynamic identities appended to A and B, and the vectors C and H, are not examined here (not in the statement)",
@@ -76,6 +104,12 @@ ASSUMPTIONS = [
     "rows of the stacked-time Jacobian that read the first-order terminal value are compared with a Richardson difference of "
     "irispie's own eval_func (itself compared with the reference residuals), column by column for x, y, z, w and along one "
     "weighted direction per period for the v_k columns",
+    "oracle (d) identifies the unknowns of the stacked-time solver by behaviour: the evaluator is given the initial guess plus a "
+    "distinct increment per element and the entries of its data array (one row per quantity, one column per period from two "
+    "periods before the start) that change by that increment (in logs for log-variables) name the unknown",
+    "oracle (d): rows that are inadmissible (domain, kink distance, magnitude) at a point of a sequence are skipped at that point only "
+    "(counted under stacked_seq_point_inadmissible); the terminal values of terminal='first_order' are part of the point and are read "
+    "back from the data array after each evaluation; an unanticipated plan point is enumerated for the first period only",
 ]
 
 PACK = 24
@@ -398,7 +432,7 @@ class Reporter:
         else:
             self.bad(check, eq, detail, second_argument_of_maximum_treated_as_constant=False, **sig)
 
-    def bad(self, check, eq, detail, **sig):
+    def bad(self, check, eq, detail, case_extra=None, **sig):
         slot = eq[3] if eq is not None else None
         s = {"ops": self.row_label(eq) if eq is not None else ["model"], "eqkind": eq[0] if eq is not None else "-"}
         s.update(sig)
@@ -407,7 +441,7 @@ class Reporter:
         full = dict(s)
         full["check"] = check
         self.res.violation(check, s, self.case(slot=slot, equation=("%s = %s" % (eq[1], E.render(eq[2]))) if eq else None,
-                                               stage=self.stage, signature=engine.jsonable(full)), detail)
+                                               stage=self.stage, signature=engine.jsonable(full), **(case_extra or {})), detail)
 
 
 # ---------------------------------------------------------------------------
@@ -670,7 +704,7 @@ class _Captured(Exception):
     pass
 
 
-def capture_stacked(model, db, span, terminal):
+def capture_stacked(model, db, span, terminal, plan=None):
     cap = {}
 
     def newton(eval_func=None, eval_jacob=None, init_guess=None, iter_printer=None, args=(), **kw):
@@ -678,7 +712,10 @@ def capture_stacked(model, db, span, terminal):
         raise _Captured()
     try:
         with _patched(_STS._nq, "damped_newton", newton), contextlib.redirect_stdout(io.StringIO()):
-            model.simulate(db, span, method="stacked_time", initial_guess="data", terminal=terminal)
+            if plan is None:
+                model.simulate(db, span, method="stacked_time", initial_guess="data", terminal=terminal)
+            else:
+                model.simulate(db, span, method="stacked_time", initial_guess="data", terminal=terminal, plan=plan)
     except _Captured:
         pass
     return cap
@@ -848,6 +885,290 @@ def oracle_stacked(model, pack, pts, rep, refs, terminal):
 
 
 # ---------------------------------------------------------------------------
+# oracle (d): the stacked-time evaluator asked more than once, and under a simulation plan
+# ---------------------------------------------------------------------------
+SEQ_T = S.SEQ_T         # periods of the frame in the stages of oracle (d); period t sees candidate point (t-1) mod #points
+SHOCK_OF = dict(zip(S.VARNAMES, TSHOCKS))      # the shock in the closing equation of each of x, y, z, w
+SEQUENCES = S.SEQUENCES
+plan_cases = S.plan_cases
+
+
+def _shock_value(k, t):
+    return (0.06 + 0.02 * k) * (1.0 if (t + k) % 2 else -1.0) + 0.004 * t
+
+
+def _seq_table(pack, pts, T):
+    names = list(S.VARNAMES) + pack.vnames
+    table = {n: {t: _filler(i, t) for t in range(-1, T + MAX_LEAD + 1)} for i, n in enumerate(names)}
+    for ti in range(T):
+        ci, pt = pts[ti % len(pts)]
+        for n in S.VARNAMES:
+            table[n][1 + ti + S.SHIFT[n]] = pt[n][0]
+    return names, table
+
+
+def identify_unknowns(cap, model, T):
+    """which (name, period) each element of the solver's vector of unknowns stands for, found by behaviour: the
+    evaluator is given the initial guess with a distinct small increment in every element and the entries of the
+    data array it writes them into are read off.  Returns a list of (name, period) or None."""
+    guess, data = cap["init"], cap["args"][0]
+    step = 1e-5
+    delta = step * (1.0 + np.arange(len(guess)))
+    cap["eval_func"](guess.copy(), data)
+    base = np.array(data, dtype=float)
+    cap["eval_func"](guess + delta, data)
+    probe = np.array(data, dtype=float)
+    cap["eval_func"](guess.copy(), data)
+    q2n = model.create_qid_to_name()
+    logly = model.create_qid_to_logly()
+    out = [None] * len(guess)
+    for q in range(data.shape[0]):
+        for c in range(2, T + 2):               # the columns of the simulated periods 1 .. T
+            a, b = base[q, c], probe[q, c]
+            if not (np.isfinite(a) and np.isfinite(b)) or a == b:
+                continue
+            if logly.get(q):
+                if not (a > 0 and b > 0):
+                    return None
+                d = math.log(b / a)
+            else:
+                d = b - a
+            if abs(d) < 0.5 * step:
+                continue
+            j = int(round(d / step)) - 1
+            if not (0 <= j < len(guess)) or out[j] is not None or abs(d - delta[j]) > 1e-9 * max(1.0, abs(a)):
+                return None
+            out[j] = (q2n[q], c - 1)
+    return None if any(o is None for o in out) else out
+
+
+def oracle_stacked_seq(model, pack, pts, rep, terminal, plan_case=None, sequences=(("G",),), fresh=True):
+    """The stacked-time evaluator over SEQ_T periods with non-zero anticipated shocks, optionally under a plan that
+    exogenizes one variable at one date and endogenizes the shock of its closing equation; for every sequence of
+    evaluation points the SAME evaluator (a fresh one per sequence) is asked for residuals and Jacobian at every
+    point in turn, and every answer is compared with the reference at that point."""
+    res = rep.res
+    T = SEQ_T
+    lg = pack.islog
+    names, base = _seq_table(pack, pts, T)
+    for n in S.VARNAMES:
+        if lg.get(n) and any(v <= 0 for v in base[n].values()):
+            raise HarnessError("non-positive data for a log-variable")
+    shocks = {s: {t: _shock_value(k, t) for t in range(1, T + 1)} for k, s in enumerate(TSHOCKS)}
+    start = ir.ii(1)
+    span = start >> start + T - 1
+    db = ir.Databox()
+    for n in names:
+        db[n] = ir.Series(start=start - 2, values=tuple(base[n][t] for t in range(-1, T + MAX_LEAD + 1)))
+    for s in TSHOCKS:
+        db["ant_" + s] = ir.Series(start=start, values=tuple(shocks[s][t] for t in range(1, T + 1)))
+    plan = None
+    kind = exo = date = shock = None
+    psig = dict(terminal=terminal, plan=None)
+    if plan_case is not None:
+        kind, exo, date = plan_case
+        shock = SHOCK_OF[exo]
+        plan = ir.SimulationPlan(model, span)
+        if kind == "anticipated":
+            plan.exogenize_anticipated(start + date - 1, exo)
+            plan.endogenize_anticipated(start + date - 1, "ant_" + shock)
+        else:
+            plan.exogenize_unanticipated(start + date - 1, exo)
+            plan.endogenize_unanticipated(start + date - 1, shock)
+            extra = 0.045
+            db[shock] = ir.Series(start=start + date - 1, values=(extra,))
+            shocks[shock][date] += extra
+        psig = dict(terminal=terminal, plan=kind)
+    p_model = pts[0][1]["p"]
+    eqs = pack.teqs
+    ne = len(eqs)
+    n2q = model.create_name_to_qid()
+
+    def capture():
+        cap = capture_stacked(model, db, span, terminal, plan=plan)
+        if "eval_func" not in cap:
+            rep.bad("stacked_not_captured", None, "simulate(stacked_time, terminal=%s, plan=%r) did not reach the solver"
+                    % (terminal, plan_case), **psig)
+            return None
+        data = cap["args"][0]
+        if cap["init"].shape != (len(names) * T,) or data.ndim != 2 or data.shape[1] != T + 2 + MAX_LEAD:
+            rep.bad("stacked_shape", None, "guess %r data %r, expected %d unknowns and %d columns"
+                    % (cap["init"].shape, data.shape, len(names) * T, T + 2 + MAX_LEAD), **psig)
+            return None
+        return cap
+
+    cap = capture()
+    if cap is None:
+        return
+    unknowns = identify_unknowns(cap, model, T)
+    if unknowns is None:
+        rep.bad("stacked_layout", None, "the unknowns of the solver could not be identified with entries of the data array",
+                **psig)
+        return
+    # what the unknowns must be: every variable in every period, minus the exogenized point, plus the endogenized shock
+    want = {(n, t) for n in names for t in range(1, T + 1)}
+    shock_unknown = None
+    if plan_case is not None:
+        want.discard((exo, date))
+        shock_unknown = (("ant_" + shock) if kind == "anticipated" else shock, date)
+        want.add(shock_unknown)
+    if set(unknowns) != want:
+        rep.bad("stacked_unknowns", None, "unknowns %r, expected %r" % (sorted(set(unknowns) - want), sorted(want - set(unknowns))),
+                **psig)
+        return
+    # column of (name, period); the endogenized shock is filed under the name of the shock in the equations
+    col = {}
+    for j, (n, t) in enumerate(unknowns):
+        col[(shock, t) if (n, t) == shock_unknown else (n, t)] = j
+    nu = len(unknowns)
+    init = cap["init"]
+
+    def point_table(label):
+        tb = {n: dict(v) for n, v in base.items()}
+        tb.update({s: dict(v) for s, v in shocks.items()})
+        for n in S.VARNAMES:
+            for t in range(1, T + 1):
+                if (n, t) not in col:
+                    continue                      # exogenized: stays at the data
+                tb[n][t] = S.seq_point_value(label, base[n][t], bool(lg.get(n)))
+        return tb
+
+    def guess_of(tb):
+        g = np.array(init, dtype=float)
+        for (n, t), j in col.items():
+            if n in TSHOCKS:
+                continue                          # the shock unknown keeps the value it has in the data
+            g[j] = math.log(tb[n][t]) if lg.get(n) else tb[n][t]
+        return g
+
+    g0 = guess_of(point_table("G"))
+    if not np.allclose(init, g0, rtol=1e-12, atol=1e-12):
+        rep.bad("stacked_layout", None, "initial guess is not the data at the identified unknowns", **psig)
+        return
+    for si, seq in enumerate(sequences):
+        if fresh or si > 0:
+            cap = capture()
+            if cap is None:
+                return
+        data = cap["args"][0]
+        term_zero = {}          # row -> was every terminal-column derivative of the row exactly zero so far / ever non-zero
+        for ei, label in enumerate(seq):
+            tb = point_table(label)
+            guess = guess_of(tb)
+            jac = cap["eval_jacob"](guess.copy(), data)
+            jac = np.array(jac.toarray() if hasattr(jac, "toarray") else jac, dtype=float)
+            func = np.array(cap["eval_func"](guess.copy(), data), dtype=float).ravel()
+            esig = dict(psig, evaluation=ei, sequence="".join(seq))
+            if func.shape != (ne * T,) or jac.shape != (ne * T, nu):
+                rep.bad("stacked_shape", None, "func %r jacobian %r" % (func.shape, jac.shape), **esig)
+                return
+            if terminal == "first_order":
+                for n in S.VARNAMES:
+                    for k in range(1, MAX_LEAD + 1):
+                        tb[n][T + k] = float(data[n2q[n], T + k + 1])
+
+            def get(name, t, tb=tb):
+                if t is None:
+                    return p_model
+                return tb[name].get(t, 0.0) if name in tb else 0.0
+
+            # reference rows first: which rows are admissible at this point, which read a terminal value
+            rows = []
+            for t in range(1, T + 1):
+                for r, eq in enumerate(eqs):
+                    kind_, lhs, rhs, slot = eq
+                    if slot is not None:
+                        try:
+                            S.check_value(rhs, get, t)
+                        except (S.Inadmissible, ValueError, OverflowError, ZeroDivisionError):
+                            res.exclude("stacked_seq_point_inadmissible:" + label)
+                            continue
+                    resid, d = eq_ref(eq, get, t)
+                    rows.append((t, r, eq, resid, d))
+            need_fd = terminal == "first_order" and any(t + s > T for t, r, eq, resid, d in rows for _, s in d)
+            if need_fd:
+                directions = []
+                for t in range(1, T + 1):
+                    for n in S.VARNAMES + TSHOCKS:
+                        if (n, t) in col:
+                            e = np.zeros(nu)
+                            e[col[(n, t)]] = 1.0
+                            directions.append(e)
+                    e = np.zeros(nu)
+                    for k, v in enumerate(pack.vnames):
+                        e[col[(v, t)]] = 1.0 + 0.1 * k
+                    directions.append(e)
+                fdq = []
+                for e in directions:
+                    def fh(h, e=e):
+                        return np.array(cap["eval_func"](guess + h * e, data), dtype=float).ravel()
+                    fdq.append(E.richardson(fh, 0.0, h=2e-4))
+                cap["eval_func"](guess.copy(), data)
+                D = np.array(directions).T
+                FD = np.array(fdq).T
+            for t, r, eq, resid, d in rows:
+                kind_, lhs, rhs, slot = eq
+                user = uses_user(rhs)
+                row = (t - 1) * ne + r
+                res.ev()
+                if not abs(func[row] - resid) <= 1e-10 * max(1.0, abs(resid), abs(get(lhs, t))):
+                    rep.bad("stacked_func", eq, "eval_func row %d (period %d) = %r, reference residual %r (logs %s, terminal %s, "
+                            "plan %r, point %s of %s)" % (row, t, func[row], resid, pack.bits, terminal, plan_case, label, "".join(seq)),
+                            **esig)
+                    continue
+                exp = np.zeros(nu)
+                mag = np.zeros(nu)
+                tz = True
+                for (n, s), (dv, mg) in d.items():
+                    if t + s > T and n in S.VARNAMES and dv != 0.0:
+                        tz = False
+                    c = col.get((n, t + s))
+                    if c is None:
+                        continue
+                    vf = get(n, t + s) if lg.get(n) else 1.0
+                    exp[c] += dv * vf
+                    mag[c] += mg * abs(vf)
+                res.count("entries_d", nu)
+                reads = terminal == "first_order" and any(t + s > T for _, s in d)
+                sig = None
+                if not reads:
+                    badc = np.nonzero(~(np.abs(jac[row] - exp) <= _tolvec(exp, mag, user)))[0]
+                    if len(badc):
+                        c = int(badc[0])
+                        sig = (unknowns[c], jac[row, c], exp[c], "analytic")
+                else:
+                    # the terminal-column derivatives of this row at this evaluation vs. earlier ones on this evaluator
+                    was = term_zero.get(row)
+                    if was is not None and was != tz:
+                        res.count("rows_terminal_zero_then_nonzero" if was else "rows_terminal_nonzero_then_zero")
+                        res.cls("zero_flip_trees", (rep.ids[slot] if (rep.ids and slot is not None) else E.render(rhs)))
+                    term_zero[row] = tz
+                    scale = max(1.0, float(np.max(np.abs(FD[row]))), float(np.max(mag)))
+                    jd = jac[row] @ D
+                    badd = np.nonzero(~(np.abs(jd - FD[row]) <= 2e-5 * scale))[0]
+                    res.count("rows_terminal_fd_d")
+                    if len(badd):
+                        k = int(badd[0])
+                        c = int(np.argmax(np.abs(directions[k])))
+                        sig = (unknowns[c], jd[k], FD[row, k], "difference quotient of eval_func")
+                if ei > 0:
+                    res.count("rows_revisited")
+                if plan_case is not None:
+                    res.count("rows_under_plan")
+                    if any(n == exo and t + s > date for (n, s) in d if s > 0):
+                        res.count("rows_lead_of_exogenized_after_its_date")
+                if sig is not None:
+                    (n, tt), gotv, refv, how = sig
+                    detail = ("eval_jacob[row %d (period %d), %s at period %d] = %r, reference (%s) %r (logs %s, terminal %s, "
+                              "plan %r, point %s = evaluation %d of %s on one evaluator)"
+                              % (row, t, n, tt, float(gotv), how, float(refv), pack.bits, terminal, plan_case, label, ei + 1,
+                                 "".join(seq)))
+                    rep.bad("stacked_jacobian", eq, detail, wrt_log=bool(lg.get(n)), last_period=bool(t == T), reference=how,
+                            case_extra={"plan_case": list(plan_case) if plan_case is not None else None, "terminal": terminal},
+                            **esig)
+
+
+# ---------------------------------------------------------------------------
 # running one pack
 # ---------------------------------------------------------------------------
 def build(pack):
@@ -856,13 +1177,15 @@ def build(pack):
 
 _SKIPPED = "skipped"
 STAGES = ("a", "b_nonflat", "c_data", "c_first_order", "b_flat")
+SEQ_STAGES = ("d_revisit", "d_plan")
 STAGE_NAMES = {"a": "systemize", "b_nonflat": "steady_nonflat", "c_data": "stacked_terminal_data",
-               "c_first_order": "stacked_terminal_first_order", "b_flat": "steady_flat"}
+               "c_first_order": "stacked_terminal_first_order", "b_flat": "steady_flat",
+               "d_revisit": "stacked_revisited", "d_plan": "stacked_under_plan"}
 
 
-def run_pack(trees, bits, pts_idx, seed, res, shared=None, ids=None, stages=STAGES, count=True):
+def run_pack(trees, bits, pts_idx, seed, res, shared=None, ids=None, stages=STAGES, count=True, only=None):
     """Run the requested oracle stages on one pack.  Returns {stage: None | exception raised by the implementation}
-    (the caller bisects the stages that raised)."""
+    (the caller bisects the stages that raised).  only: (plan case, terminal) to restrict stage d_plan to (replay)."""
     pack = Pack(trees, bits)
     pts = [(ci, S.point(ci, seed)) for ci in pts_idx]
     rep = Reporter(res, pack, pts_idx, seed, ids)
@@ -887,7 +1210,7 @@ def run_pack(trees, bits, pts_idx, seed, res, shared=None, ids=None, stages=STAG
                 oracle_steady(model, pack, pts, rep, refs, flat=True)
             elif st == "c_data":
                 oracle_stacked(model, pack, pts, rep, refs, "data")
-            elif st == "c_first_order":
+            elif st in ("c_first_order",) + SEQ_STAGES:
                 try:
                     with contextlib.redirect_stdout(io.StringIO()):
                         model.solve()
@@ -896,7 +1219,20 @@ def run_pack(trees, bits, pts_idx, seed, res, shared=None, ids=None, stages=STAG
                     res.count("first_order_solution_failed:" + type(e).__name__)
                     out[st] = _SKIPPED
                     continue
-                oracle_stacked(model, pack, pts, rep, refs, "first_order")
+                if st == "c_first_order":
+                    oracle_stacked(model, pack, pts, rep, refs, "first_order")
+                elif st == "d_revisit":
+                    # one evaluator asked at a sequence of points, a fresh evaluator for every sequence
+                    oracle_stacked_seq(model, pack, pts, rep, "first_order", None, SEQUENCES, fresh=True)
+                    res.count("revisit_sessions", len(SEQUENCES))
+                else:
+                    for pc in plan_cases():
+                        for terminal in ("data", "first_order"):
+                            if only is not None and only != (pc, terminal):
+                                continue
+                            oracle_stacked_seq(model, pack, pts, rep, terminal, pc, (("G",),), fresh=False)
+                            res.count("plan_cases_run")
+                            res.cls("plan_cases", (pc, terminal))
             out[st] = None
         except HarnessError:
             raise
@@ -956,9 +1292,16 @@ def _quiet():
 
 def shard_trees(item, res, ctx):
     """one block of trees of one family x all 16 log-status assignments.
-    item = (family, lo, hi, deep_logs, suspects, pack): deep_logs = log assignments that also get oracles (b), (c);
+    item = (family, lo, hi, deep_logs, suspects, pack, (revisit_logs, plan_logs)): deep_logs = log assignments that
+    also get oracles (b), (c); revisit_logs / plan_logs = log assignments that also get the two stages of oracle (d)
+    (one evaluator asked at a sequence of points / the evaluator under every plan of plan_cases());
     suspects = "own" | "zero" (which assignments a tree of a shape expected to be rejected is probed under first)."""
-    family, lo, hi, deep_logs, suspects, pack_size = item
+    family, lo, hi, deep_logs, suspects, pack_size = item[:6]
+    revisit_logs, plan_logs = (tuple(item[6][0]), tuple(item[6][1])) if len(item) > 6 else ((), ())
+
+    def stages_for(bits):
+        return ((STAGES if bits in deep_logs else STAGES[:1]) + (SEQ_STAGES[:1] if bits in revisit_logs else ())
+                + (SEQ_STAGES[1:] if bits in plan_logs else ()))
     _quiet()
     seed = ctx.seed
     pts = [S.point(c, seed) for c in range(S.NPTS)]
@@ -980,7 +1323,7 @@ def shard_trees(item, res, ctx):
         if not u:
             res.exclude("no_admissible_point_for_log_assignment")
             return 0
-        return run_group([(tid, tr)], bits, u, seed, res, shared, STAGES if bits in deep_logs else STAGES[:1])
+        return run_group([(tid, tr)], bits, u, seed, res, shared, stages_for(bits))
 
     # trees of shapes expected to be rejected: one model per tree, first under every log-status assignment of the
     # variables the tree contains, the others non-log ("own"; "zero": only the all-non-log assignment); if any of
@@ -1009,45 +1352,60 @@ def shard_trees(item, res, ctx):
         for u, items in sorted(groups.items()):
             res.cls("point_sets", u)
             for k in range(0, len(items), pack_size):
-                run_group(items[k:k + pack_size], bits, u, seed, res, shared, STAGES if bits in deep_logs else STAGES[:1])
+                run_group(items[k:k + pack_size], bits, u, seed, res, shared, stages_for(bits))
     if lo == 0:
         res.sample({"family": family, "first_tree": E.render(trees[0][1]), "last_tree": E.render(trees[-1][1]),
                     "trees_in_block": hi - lo, "log_assignments": 16, "log_assignments_with_steady_and_stacked_oracles": len(deep_logs)})
 
 
 SOME_LOGS = ("0000", "1111", "0101", "1010")
+REVISIT_LOGS = SOME_LOGS + ("1000", "0100", "0010", "0001")
+PLAN_LOGS = ("0101", "1010")    # every variable is exogenized once as a log-variable and once as a non-log variable
+ZERO_LOGS = ("0000",)       # no log-variable among x, y, z, w: the point Z of oracle (d) has the most exact zeros
 # vacuity floors: about half of what the unchanged tree measures (seed 0)
+# oracle (d): about half of the smallest of seeds 0, 1, 2 in the quick tier; the thorough tier runs a superset of these stages, so the same numbers are (loose)
+# lower bounds there
+SEQ_FLOORS = {"entries_d": 7000000, "rows_revisited": 40000, "rows_terminal_fd_d": 10000, "revisit_sessions": 400,
+              "rows_terminal_zero_then_nonzero": 150, "rows_terminal_nonzero_then_zero": 75,
+              "plan_cases_run": 700, "rows_under_plan": 44000, "rows_lead_of_exogenized_after_its_date": 2500,
+              "accepted_trees:stacked_revisited": 2600, "accepted_trees:stacked_under_plan": 370}
+SEQ_CLASS_FLOORS = {"zero_flip_trees": 45, "plan_cases": 32}     # plan_cases: all 16 plans x 2 terminals must have run
 FLOORS = {
     "quick": dict(nontrivial=15000, entries_a=300000, entries_b=5000000, entries_c=4000000, rows_terminal_fd=2500,
-                  stage_a=21000, stage_deep=7500,
+                  stage_a=21000, stage_deep=7500, seq=SEQ_FLOORS,
                   ops={"+": 2800, "-": 2700, "*": 2800, "/": 2800, "^const": 1100, "log": 3100, "exp": 3300, "sqrt": 3100}),
     "thorough": dict(nontrivial=1200000, entries_a=17000000, entries_b=190000000, entries_c=160000000, rows_terminal_fd=120000,
-                     stage_a=1250000, stage_deep=290000,
+                     stage_a=1250000, stage_deep=290000, seq=SEQ_FLOORS,
                      ops={"+": 400000, "-": 390000, "*": 400000, "/": 400000, "^const": 26000, "log": 66000, "exp": 66000, "sqrt": 66000}),
 }
 
 
 def plan_for(ctx):
-    """(family, block size, log assignments that get oracles (b) and (c), suspects policy, pack size)"""
+    """(family, block size, log assignments that get oracles (b) and (c), suspects policy, pack size,
+    (log assignments that get oracle (d) 'revisited', log assignments that get oracle (d) 'under a plan'))"""
     if ctx.quick:
-        return [("D12", 66, ALL_LOGS, "own", PACK), ("D3U", 65, SOME_LOGS, "own", PACK)]
-    return [("D12", 66, ALL_LOGS, "own", PACK), ("D3U", 195, ALL_LOGS, "own", PACK), ("D3L", 196, ALL_LOGS, "own", PACK),
-            ("D3R", 196, ALL_LOGS, "own", PACK), ("D3V", 656, (), "zero", 2 * PACK)]
+        return [("D12", 66, ALL_LOGS, "own", PACK, (REVISIT_LOGS, PLAN_LOGS)), ("D3U", 65, SOME_LOGS, "own", PACK, (ZERO_LOGS, ()))]
+    return [("D12", 66, ALL_LOGS, "own", PACK, (ALL_LOGS, ALL_LOGS)), ("D3U", 195, ALL_LOGS, "own", PACK, (SOME_LOGS, SOME_LOGS)),
+            ("D3L", 196, ALL_LOGS, "own", PACK, (ZERO_LOGS, ())), ("D3R", 196, ALL_LOGS, "own", PACK, (ZERO_LOGS, ())),
+            ("D3V", 656, (), "zero", 2 * PACK, ((), ()))]
 
 
 def run(ctx, total, info):
     os.makedirs("/verif/.work", exist_ok=True)
     plan = plan_for(ctx)
     shards = []
-    for family, block, deep_logs, suspects, pack_size in plan:
+    for family, block, deep_logs, suspects, pack_size, seq_logs in plan:
         n = S.family_size(family)
         for lo in range(0, n, block):
-            shards.append((family, lo, min(n, lo + block), tuple(deep_logs), suspects, pack_size))
-    shards.sort(key=lambda s: -(s[2] - s[1]) * (1 + len(s[3])))
+            shards.append((family, lo, min(n, lo + block), tuple(deep_logs), suspects, pack_size,
+                           (tuple(seq_logs[0]), tuple(seq_logs[1]))))
+    shards.sort(key=lambda s: -(s[2] - s[1]) * (1 + len(s[3]) + len(s[6][0]) + 5 * len(s[6][1])))
     engine.run_shards(__name__, "shard_trees", shards, ctx, total)
     c = total.counters
     info["families"] = {f: {"trees": S.family_size(f), "log_assignments_systemize": 16,
-                            "log_assignments_steady_and_stacked": len(dl)} for f, _, dl, _, _ in plan}
+                            "log_assignments_steady_and_stacked": len(dl),
+                            "log_assignments_stacked_revisited": len(sl[0]),
+                            "log_assignments_stacked_under_plan": len(sl[1])} for f, _, dl, _, _, sl in plan}
     info["candidate_points"] = S.NPTS
     info["rejected_by_implementation"] = {k.split(":", 1)[1]: v for k, v in sorted(c.items()) if k.startswith("rejected_with:")}
     info["accepted"] = {k.split(":", 1)[1]: v for k, v in sorted(c.items()) if k.startswith("accepted_with:")}
@@ -1063,6 +1421,12 @@ def run(ctx, total, info):
     for st in STAGES:
         k = "accepted_trees:" + STAGE_NAMES[st]
         floors[k] = (c.get(k, 0), fl["stage_a"] if st == "a" else fl["stage_deep"])
+    for k, v in fl["seq"].items():
+        floors[k] = (c.get(k, 0), v)
+    for k, v in SEQ_CLASS_FLOORS.items():
+        floors["distinct:" + k] = (len(total.classes.get(k, ())), v)
+    info["plans"] = {"cases": len(plan_cases()), "terminals": ["data", "first_order"], "periods": SEQ_T,
+                     "evaluation_sequences": ["".join(q) for q in SEQUENCES]}
     info["floors"] = floors
 
 
@@ -1072,9 +1436,14 @@ def replay(case):
     res = engine.Result()
     _quiet()
     trees = [totuple(t) for t in case["trees"]]
-    stages = (case["stage"],) if case.get("stage") in STAGES else STAGES
+    stages = (case["stage"],) if case.get("stage") in STAGES + SEQ_STAGES else STAGES
+    only = None
+    if case.get("plan_case") is not None and case.get("terminal") is not None:     # stage d_plan: that plan only
+        kind, name, date = case["plan_case"]
+        only = ((str(kind), str(name), int(date)), str(case["terminal"]))
     with contextlib.redirect_stdout(io.StringIO()):
-        excs = run_pack(trees, case["logs"], tuple(case["points"]), int(case.get("seed", 0)), res, stages=stages, count=False)
+        excs = run_pack(trees, case["logs"], tuple(case["points"]), int(case.get("seed", 0)), res, stages=stages, count=False,
+                        only=only)
     want = case.get("signature")
     out = ["%s %s :: %s :: %s" % (v["check"], engine.sigkey(v["signature"]), v["case"].get("equation"), v["detail"])
            for v in res.violations
